@@ -243,7 +243,15 @@ def rule_c(ctx: Ctx) -> None:
     ctx.min_instances("mapping_entries", n, 700)
 
 
-RULES = [rule_a, rule_b, rule_c]
+def rule_d(ctx: Ctx) -> None:
+    ctx.rule("C01.d", "parser / generator / tokenizer settings are consulted: every class-level setting of Parser, Generator and Tokenizer that at least one dialect "
+                      "overrides is read somewhere in the package (a dropped guard silently disables that dialect's syntax on one side of the round trip)")
+    from .c10 import dead_settings
+
+    dead_settings(ctx, "C01.d", [("sqlglot.parser", "Parser"), ("sqlglot.generator", "Generator"), ("sqlglot.tokens", "Tokenizer")])
+
+
+RULES = [rule_a, rule_b, rule_c, rule_d]
 EXPLANATION = (
     "Exhaustive table/shape checks over all dialect classes: (a) the set of expression classes each dialect's parser chain "
     "can construct (collected from the AST of the parser modules on its MRO) must be covered by that dialect's generator "
